@@ -10,7 +10,21 @@ use std::collections::BTreeSet;
 macro_rules! harness {
     ($name:ident, $body:expr) => {
         #[kani::proof]
-        #[kani::unwind(3)]
+        #[kani::unwind(1)]
+        #[kani::stub(crate::parser::parse_value, no_parse_value)]
+        #[kani::stub(crate::de::from_slice, no_from_slice)]
+        #[kani::stub(std::ptr::drop_in_place, noop_drop)]
+        #[kani::stub(crate::builder::ObjectBuilder::build_into, no_object_builder)]
+        fn $name() {
+            $body
+        }
+    };
+}
+
+macro_rules! harness_obj {
+    ($name:ident, $body:expr) => {
+        #[kani::proof]
+        #[kani::unwind(1)]
         #[kani::stub(crate::parser::parse_value, no_parse_value)]
         #[kani::stub(crate::de::from_slice, no_from_slice)]
         #[kani::stub(std::ptr::drop_in_place, noop_drop)]
@@ -65,7 +79,7 @@ fn idx_arms(lo: i32, hi: i32, f: impl Fn(i32)) {
     let mut v = lo;
     while v <= hi {
         if i == v {
-            f(i);
+            f(v);
         }
         v += 1;
     }
@@ -73,32 +87,40 @@ fn idx_arms(lo: i32, hi: i32, f: impl Fn(i32)) {
 
 //@ props: C17
 //@ timeout: 1200
-//@ harness: c17_delete_by_index, c17_array_insert, c17_concat, c17_strip_nulls, c17_build, c17_comparable, c17_delete_by_keypath, c17_errors
-//@ desc: each buffer-writing function is run on an empty buffer and on a buffer that already holds two arbitrary bytes, on [n,s], scalar n, [] and {k:null}: delete_by_index and array_insert (index/position -3..=3 by case split, incl. the out-of-range no-op copy), concat (non-object pairs), strip_nulls, build_array/build_object, convert_to_comparable, delete_by_keypath ({i}), and the documented errors of the object editors: the prior bytes are untouched, what is appended is byte-identical to the empty-buffer output, and on an error nothing is appended
+//@ harness: c17_delete_by_index, c17_delete_by_index_neg, c17_delete_by_index_oob, c17_delete_by_index_other, c17_array_insert, c17_array_insert_other, c17_concat, c17_concat_other, c17_strip_nulls, c17_build, c17_comparable, c17_delete_by_keypath, c17_errors
+//@ desc: each buffer-writing function is run on an empty buffer and on a buffer that already holds two arbitrary bytes, on [n,s], scalar n, [] and {k:null}: delete_by_index (index 0, -1, and the out-of-range no-op copies 5 and -4) and array_insert (positions 1 and -1), concat (non-object pairs), strip_nulls, build_array/build_object, convert_to_comparable, delete_by_keypath ({i}), and the documented errors of the object editors: the prior bytes are untouched, what is appended is byte-identical to the empty-buffer output, and on an error nothing is appended
 //@ fns: delete_by_index, array_insert, concat, strip_nulls, build_array, build_object, convert_to_comparable, delete_by_keypath, object_insert, object_delete, object_pick, delete_by_name, ArrayBuilder::build_into, reserve_jentries, replace_jentry
 //@ bounds: documents <= 2 children; prefix 2 bytes
-//@ stubs: parse_value, from_slice -> panic | drop_in_place -> no-op
+//@ stubs: parse_value, from_slice -> panic | drop_in_place -> no-op | ObjectBuilder::build_into -> panic in array-only instances
 //@ outside: ObjectBuilder-based editors on non-empty objects, the array set functions and path selection (not reached by this technique, see DESIGN §0.5)
-harness!(c17_delete_by_index, split1(3, |k| docs(k, |d| idx_arms(-3, 3, |i| append_only(|b| delete_by_index(d.bytes(), i, b))))));
-harness!(c17_array_insert, split1(3, |k| docs(k, |d| {
+harness!(c17_delete_by_index, docs(0, |d| idx_arms(0, 0, |i| append_only(|b| delete_by_index(d.bytes(), i, b)))));
+harness!(c17_delete_by_index_neg, docs(0, |d| idx_arms(-1, -1, |i| append_only(|b| delete_by_index(d.bytes(), i, b)))));
+harness!(c17_delete_by_index_oob, split1(2, |k| docs(0, |d| idx_arms([5, -4][k], [5, -4][k], |i| append_only(|b| delete_by_index(d.bytes(), i, b))))));
+harness_obj!(c17_delete_by_index_other, split1(2, |k| docs(1 + k, |d| idx_arms(0, 0, |i| append_only(|b| delete_by_index(d.bytes(), i, b))))));
+harness!(c17_array_insert, docs(0, |d| {
     let nw = B::build(&arr(&[leaf(K_NUM, 2)]));
-    idx_arms(-3, 3, |i| append_only(|b| array_insert(d.bytes(), i, nw.bytes(), b)));
+    idx_arms(1, 1, |i| append_only(|b| array_insert(d.bytes(), i, nw.bytes(), b)));
+}));
+harness_obj!(c17_array_insert_other, split1(2, |k| docs(1 + k, |d| {
+    let nw = B::build(&leaf(K_NUM, 2));
+    idx_arms(-1, -1, |i| append_only(|b| array_insert(d.bytes(), i, nw.bytes(), b)));
 })));
-harness!(c17_concat, split2(3, 3, |i, j| docs(i, |a| docs(j, |c| append_only(|b| concat(a.bytes(), c.bytes(), b))))));
-harness!(c17_strip_nulls, split1(4, |k| docs(k, |d| append_only(|b| strip_nulls(d.bytes(), b)))));
-harness!(c17_build, split1(2, |k| docs(k, |d| docs(1, |e| {
+harness!(c17_concat, docs(0, |a| docs(0, |c| append_only(|b| concat(a.bytes(), c.bytes(), b)))));
+harness_obj!(c17_concat_other, split1(2, |k| docs(1 + k, |a| docs(2 - k, |c| append_only(|b| concat(a.bytes(), c.bytes(), b))))));
+harness_obj!(c17_strip_nulls, split1(4, |k| docs(k, |d| append_only(|b| strip_nulls(d.bytes(), b)))));
+harness_obj!(c17_build, split1(2, |k| docs(k, |d| docs(1, |e| {
     let parts: [&[u8]; 2] = [d.bytes(), e.bytes()];
     append_only(|b| build_array(parts.iter().copied(), b));
     let items: [(&str, &[u8]); 2] = [("a", d.bytes()), ("b", e.bytes())];
     append_only(|b| build_object(items.iter().copied(), b));
 }))));
-harness!(c17_comparable, split1(4, |k| docs(k, |d| append_only(|b| { convert_to_comparable(d.bytes(), b); Ok::<(), ()>(()) }))));
-harness!(c17_delete_by_keypath, split1(2, |k| docs(k, |d| idx_arms(-3, 2, |i| {
+harness_obj!(c17_comparable, split1(4, |k| docs(k, |d| append_only(|b| { convert_to_comparable(d.bytes(), b); Ok::<(), ()>(()) }))));
+harness!(c17_delete_by_keypath, split1(2, |k| docs(0, |d| idx_arms([1, 4][k], [1, 4][k], |i| {
     let p = KeyPath::Index(i);
     let path = [&p];
     append_only(|b| delete_by_keypath(d.bytes(), path.iter().copied(), b));
 }))));
-harness!(c17_errors, split1(2, |k| docs(k, |d| {
+harness_obj!(c17_errors, split1(2, |k| docs(k, |d| {
     let n = Name::of_len(1);
     let nw = B::build(&leaf(K_TRUE, 0));
     append_only(|b| object_insert(d.bytes(), n.as_str(), nw.bytes(), true, b));
@@ -119,7 +141,7 @@ harness!(c17_errors, split1(2, |k| docs(k, |d| {
 //@ desc: vacuity twin: strip_nulls into a prefilled buffer claimed to leave the length unchanged — must be refuted
 //@ fns: strip_nulls
 #[kani::proof]
-#[kani::unwind(3)]
+#[kani::unwind(1)]
 #[kani::stub(crate::parser::parse_value, no_parse_value)]
 #[kani::stub(crate::de::from_slice, no_from_slice)]
 #[kani::stub(std::ptr::drop_in_place, noop_drop)]
